@@ -14,6 +14,7 @@ type Design struct {
 	order    []string // module names in a deterministic order (file, line)
 	parseDgs []Diag
 	dupMods  []Diag
+	fatals   []Diag // parse diagnostics (syntax / unsupported) that make the enclosing module unusable
 }
 
 type parseError struct{ d Diag }
@@ -24,6 +25,7 @@ type parser struct {
 	pos   int
 	diags []Diag
 	depth int
+	soft  map[int]bool // indices into diags that are not fatal for elaboration
 }
 
 // ParseFiles parses a set of files (name -> text). Never panics.
@@ -35,8 +37,9 @@ func ParseFiles(files map[string]string) (d *Design, diags []Diag) {
 	}
 	sort.Strings(names)
 	for _, n := range names {
-		mods, ds := parseOne(n, files[n])
+		mods, ds, fatal := parseOne(n, files[n])
 		diags = append(diags, ds...)
+		d.fatals = append(d.fatals, fatal...)
 		for _, m := range mods {
 			if old, ok := d.mods[m.Name]; ok {
 				dd := Diag{File: m.File, Line: m.Line, Class: ClassDupDecl, Ident: m.Name,
@@ -52,16 +55,23 @@ func ParseFiles(files map[string]string) (d *Design, diags []Diag) {
 	return d, diags
 }
 
-func parseOne(file, src string) (mods []*Module, diags []Diag) {
+func parseOne(file, src string) (mods []*Module, diags, fatal []Diag) {
 	defer func() {
 		if r := recover(); r != nil {
-			diags = append(diags, Diag{File: file, Line: 0, Class: ClassSyntax, Msg: fmt.Sprintf("internal parser error: %v", r)})
+			dg := Diag{File: file, Line: 1, Class: ClassSyntax, Msg: fmt.Sprintf("internal parser error: %v", r)}
+			diags = append(diags, dg)
+			fatal = append(fatal, Diag{File: file, Line: -1, Class: ClassSyntax, Msg: dg.Msg})
 		}
 	}()
 	toks, ds := lexFile(file, src)
 	p := &parser{file: file, toks: toks, diags: ds}
 	mods = p.parseFile()
-	return mods, p.diags
+	for i, dg := range p.diags {
+		if (dg.Class == ClassSyntax || dg.Class == ClassUnsupported) && !p.soft[i] {
+			fatal = append(fatal, dg)
+		}
+	}
+	return mods, p.diags, fatal
 }
 
 // Modules returns the names of the parsed modules.
@@ -126,6 +136,16 @@ func (p *parser) acceptKw(s string) bool {
 
 func (p *parser) addDiag(line int, class, ident, msg string) {
 	p.diags = append(p.diags, Diag{File: p.file, Line: line, Class: class, Ident: ident, Msg: msg})
+}
+
+// addSoft records an unsupported-construct diagnostic that does not by itself prevent
+// elaboration (the elaborator decides when the construct is actually reached).
+func (p *parser) addSoft(line int, class, ident, msg string) {
+	if p.soft == nil {
+		p.soft = map[int]bool{}
+	}
+	p.soft[len(p.diags)] = true
+	p.addDiag(line, class, ident, msg)
 }
 
 func (p *parser) fail(format string, args ...interface{}) {
@@ -251,7 +271,7 @@ var netTypes = map[string]bool{"wire": true, "tri": true, "tri0": true, "tri1": 
 
 func (p *parser) parseModule() *Module {
 	mt := p.next() // module
-	m := &Module{File: p.file, Line: mt.line, PortLine: map[string]int{}}
+	m := &Module{File: p.file, Line: mt.line, EndLine: 1 << 30, PortLine: map[string]int{}}
 	m.Name = p.expectIdent().text
 	// parameter port list
 	if p.isOp("#") {
@@ -333,6 +353,7 @@ func (p *parser) parseModule() *Module {
 	p.expectOp(";")
 	for {
 		t := p.peek()
+		m.EndLine = t.line
 		if t.kind == tEOF {
 			p.addDiag(t.line, ClassSyntax, m.Name, "missing endmodule")
 			return m
@@ -342,7 +363,8 @@ func (p *parser) parseModule() *Module {
 			return m
 		}
 		if t.kind == tKeyword && (t.text == "module" || t.text == "macromodule") {
-			p.addDiag(t.line, ClassSyntax, m.Name, "missing endmodule before 'module'")
+			p.addDiag(t.line-1, ClassSyntax, m.Name, "missing endmodule before 'module'")
+			m.EndLine = t.line - 1
 			return m
 		}
 		start := p.pos
@@ -547,7 +569,10 @@ func (p *parser) parseItem(inGen bool) []*Item {
 			return []*Item{{Kind: iDecl, Line: line, Decl: d}}
 		case "integer", "time":
 			p.pos++
-			d := &Decl{Kind: dInteger, Line: line, NetType: "reg", IsInt: true, Signed: t.text == "integer"}
+			d := &Decl{Kind: dInteger, Line: line, NetType: "reg", IsInt: true, Signed: true}
+			if t.text == "time" { // 64-bit unsigned variable
+				d = &Decl{Kind: dReg, Line: line, NetType: "reg", MSB: mkNumExpr(63, line), LSB: mkNumExpr(0, line)}
+			}
 			p.parseDeclNames(d, true)
 			p.expectOp(";")
 			return []*Item{{Kind: iDecl, Line: line, Decl: d}}
@@ -665,7 +690,7 @@ func (p *parser) parseItem(inGen bool) []*Item {
 		case "function":
 			return []*Item{p.parseFunction()}
 		case "task":
-			p.addDiag(line, ClassUnsupported, "", "tasks are not supported")
+			p.addSoft(line, ClassUnsupported, "", "tasks are not supported")
 			for !p.isKw("endtask") && p.peek().kind != tEOF && !p.isKw("endmodule") {
 				p.pos++
 			}
@@ -1087,7 +1112,10 @@ func (p *parser) parseFunction() *Item {
 			continue
 		case "integer", "time":
 			p.pos++
-			d := &Decl{Kind: dInteger, Line: dl, NetType: "reg", IsInt: true, Signed: t.text == "integer"}
+			d := &Decl{Kind: dInteger, Line: dl, NetType: "reg", IsInt: true, Signed: true}
+			if t.text == "time" {
+				d = &Decl{Kind: dReg, Line: dl, NetType: "reg", MSB: mkNumExpr(63, dl), LSB: mkNumExpr(0, dl)}
+			}
 			p.parseDeclNames(d, true)
 			p.expectOp(";")
 			f.Decls = append(f.Decls, d)
@@ -1366,14 +1394,14 @@ func (p *parser) parseStmt() *Stmt {
 			p.expectOp(";")
 			return s
 		case "fork":
-			p.addDiag(line, ClassUnsupported, "", "fork/join is not supported")
+			p.addSoft(line, ClassUnsupported, "", "fork/join is not supported")
 			for !p.isKw("join") && p.peek().kind != tEOF && !p.isKw("endmodule") {
 				p.pos++
 			}
 			p.acceptKw("join")
 			return &Stmt{Kind: sTaskCall, Line: line, Name: "fork"}
 		case "assign", "deassign", "force", "release":
-			p.addDiag(line, ClassUnsupported, "", "procedural '"+t.text+"' is not supported")
+			p.addSoft(line, ClassUnsupported, "", "procedural '"+t.text+"' is not supported")
 			p.skipToSemi()
 			return &Stmt{Kind: sTaskCall, Line: line, Name: t.text}
 		}
